@@ -11,6 +11,8 @@ Accept(ev) ==
   IN /\ ~ev.panic
      /\ r.aligned /\ Len(ev.out) = Len(ev.out_sounds)              \* one hit sound per object
      /\ r.log = ev.log                                             \* the index arithmetic of the splice
+     /\ \A b \in 1..Len(ev.ts_pos) : ev.ts_pos[b]                  \* only a slider with a positive tick spacing becomes hits (a
+                                                                   \* zero-length slider stays a drum roll: it never counts as a hit)
      /\ Len(r.out) = Len(ev.out)
      /\ \A i \in 1..Len(ev.out) : r.out[i] = [id |-> ev.out[i].id, t |-> ev.out[i].t, kind |-> ev.out[i].kind, snd |-> ev.out_sounds[i]]
      /\ NonDecreasing(r.out)
